@@ -52,6 +52,8 @@ func c16(w *core.World, r *core.Report) {
 	ruleHandleResp(w, r)
 	r.Rule("R16.8", "a refusal frame ends the exchange on the leader (handleError given a non-nil error, result returned)", 4)
 	ruleRefusalEnds(w, r)
+	r.Rule("R05.10", "the leader's cache stays contiguous under collection: a snapshot kept while its first log segment is collected is served to a follower again and again (shared with C05)", 3)
+	ruleJointUnderGc(w, r)
 }
 
 func isReqGetter(name string) func(ssa.Value) bool {
